@@ -1,0 +1,18 @@
+//go:build verif
+
+package node
+
+import (
+	"context"
+
+	"github.com/sourcenetwork/corekv"
+)
+
+// VerifRegisterStore registers an externally constructed store under the given store type.
+// It exists only for the verification harness (build tag verif).
+func VerifRegisterStore(t StoreType, ctor func(ctx context.Context) (corekv.TxnStore, error)) {
+	storeConstructors[t] = func(ctx context.Context, _ *StoreOptions) (corekv.TxnStore, error) {
+		return ctor(ctx)
+	}
+	storePurgeFuncs[t] = func(ctx context.Context, _ *StoreOptions) error { return nil }
+}
